@@ -373,6 +373,34 @@ def h_parallel_bonds(cls_sel: int, i: int, j: int, n_extra: int, which: int, the
     return True
 
 
+def h_bond_iterables(cls_sel: int, how: int, kind: int, then: int) -> bool:
+    """
+    bonds handed over in bulk: append_bonds(*bonds) / extend_bonds(iterable) with a list, a tuple, a generator or a map object of new Bond objects between
+    atoms of the molecule, followed by another edit: every bond in the list has the molecule as parent and joins two of its atoms, containers stay aligned
+    pre: 0 <= cls_sel <= 1 and 0 <= how <= 1 and 0 <= kind <= 3 and 0 <= then <= 2
+    post: _
+    """
+    cls = Molecule if cls_sel == 0 else Structure
+    m = start(1, cls)
+    ref = Ref(m, cls is Molecule)
+    pairs = [(0, 2), (3, 4), (1, 3)]
+    new = [Bond(ref.atoms[i], ref.atoms[j], btype=2) for i, j in pairs]
+    arg = [new, tuple(new), (b for b in new), map(lambda b: b, new)][pick(kind, 4)]
+    if pick(how, 2) == 0:
+        m.append_bonds(*arg)
+    else:
+        m.extend_bonds(arg)
+    ref.bonds += new
+    if not aligned(m, ref):
+        return False
+    th = pick(then, 3)
+    if th == 1 and (not apply(m, ref, ("del_obj", 1, 0)) or not aligned(m, ref)):
+        return False
+    if th == 2 and (not apply(m, ref, ("del_bond", len(ref.bonds) - 1, 0)) or not aligned(m, ref)):
+        return False
+    return True
+
+
 def h_edit2_quick(s1: int, s2: int) -> bool:
     """
     two-edit histories over the add/delete subset from the loaded molecule (quick tier)
@@ -399,7 +427,7 @@ def run(rep, tier):
                    "Conformer / Substructure views", "[selector-bound]: the symbolic variables are selectors over the finite menu of applicable moves; the solver enumerates them"]
     rep.assumptions = ["reference model keyed by atom identity; coordinates/charges carry a per-atom tag"]
     q = tier == "quick"
-    specs = [{"fn": "h_edit1", "timeout": 600, "split": s} for s in range(6)] + [{"fn": "h_parallel_bonds", "timeout": 600 if q else 3000, "split": s, "env": ({} if q else {"XH_THOROUGH": "1"})} for s in range(4)]
+    specs = [{"fn": "h_edit1", "timeout": 600, "split": s} for s in range(6)] + [{"fn": "h_parallel_bonds", "timeout": 600 if q else 3000, "split": s, "env": ({} if q else {"XH_THOROUGH": "1"})} for s in range(4)] + [{"fn": "h_bond_iterables", "timeout": 600}]
     if q:
         specs += [{"fn": "h_edit2_quick", "timeout": 600, "split": s, "env": {"XH_NSPLIT": "8"}} for s in range(8)]
     else:
